@@ -1,0 +1,28 @@
+//go:build verif
+
+package ast
+
+// Specification vocabulary and contracts checked by /verif/hvc (build tag
+// verif only; see /verif/DESIGN.md).
+
+/*@ func VTypeWF
+    unroll 2
+@*/
+
+// VTypeWF: a static type is well formed: its dynamic Go type is the one its
+// kind announces, and the component types of option and list types are well
+// formed too (object field types are checked where the fields are used).
+func VTypeWF(t Type) bool {
+	if t == nil {
+		return false
+	}
+	switch x := t.(type) {
+	case OptionType:
+		return x.Inner != nil && VTypeWF(x.Inner)
+	case ListType:
+		return x.Inner != nil && VTypeWF(x.Inner)
+	case UnknownType, NeverType, AnyType, NullType, IntType, FloatType, BoolType, StringType, RangeType, AnyObjectType, ObjectType, FunctionType:
+		return true
+	}
+	return false
+}
